@@ -186,6 +186,43 @@ def main():
                     h.case(("float", mode, nm, pos) if n >= 2 else None)
                     h.count("route", f"float-{mode}")
 
+    # ------------------------------------------------------------------ the tiles a WORKFLOW works on: `Builder.toast_base(…, is_planet=…,
+    # tile_filter=…)` shows its filter (and fills) the tiles of the coordinate system the caller asked for
+    try:
+        import shutil
+        import tempfile
+        import warnings
+        from toasty.builder import Builder
+        from toasty.pyramid import PyramidIO
+        wroot = tempfile.mkdtemp(prefix="vfc04_")
+        try:
+            for nm, cs in systems:
+                seen = {}
+
+                def rec(tile, seen=seen):
+                    if tile.pos.n >= 1:
+                        seen[(tile.pos.n, tile.pos.x, tile.pos.y)] = (tuple(tuple(float(v) for v in c_) for c_ in tile.corners), tile.increasing)
+                    return True
+                with warnings.catch_warnings():
+                    warnings.simplefilter("ignore")
+                    Builder(PyramidIO(os.path.join(wroot, nm), default_format="npy")).toast_base(
+                        (lambda lon, lat: np.zeros(np.shape(lon))), 2, is_planet=(cs == toast.ToastCoordinateSystem.PLANETARY), tile_filter=rec, parallel=1)
+                badw = None
+                for pos_, (corn_, inc_) in sorted(seen.items()):
+                    ref_ = toast.create_single_tile(Pos(*pos_), coordsys=cs)
+                    if not corners_equal(corn_, ref_.corners) or inc_ != ref_.increasing:
+                        badw = f"position {pos_}: the workflow's filter was shown corners {show(corn_)}, single-tile construction in the {nm} system gives {show(ref_.corners)}"
+                        break
+                if len(seen) != 20 and not badw:
+                    badw = f"the filter was shown {len(seen)} tiles of levels 1-2 instead of 20"
+                h.case(("workflow", nm))
+                h.count("route", "builder-filtered")
+                if badw:
+                    h.violation("route:workflow", f"{nm} system, Builder.toast_base(depth 2, is_planet={nm == 'p'}, tile_filter=…): {badw}", input={"system": nm}, observed=badw)
+        finally:
+            shutil.rmtree(wroot, ignore_errors=True)
+    except Exception as e:
+        h.violation("route:workflow:crash", f"Builder.toast_base with a recording filter raised {type(e).__name__}: {e}", input="workflow")
     # ------------------------------------------------------------------ (c) numeric validation of the parameters
     for mode, patch in modes:
         with Patched(toast, **patch):
